@@ -2,6 +2,7 @@ package checks
 
 import (
 	"go/ast"
+	"go/token"
 	"go/types"
 
 	"golang.org/x/tools/go/cfg"
@@ -48,6 +49,36 @@ func blockCond(b *cfg.Block) ast.Expr {
 		return e
 	}
 	return nil
+}
+
+// condFacts decomposes a branch condition (go/cfg keeps `!`, `&&`, `||` inside one node):
+// gT / gF report whether the guard is established when the whole condition is true / false.
+func condFacts(c ast.Expr, pol guardPolarity) (gT, gF bool) {
+	switch x := ast.Unparen(c).(type) {
+	case *ast.UnaryExpr:
+		if x.Op == token.NOT {
+			t, f := condFacts(x.X, pol)
+			return f, t
+		}
+	case *ast.BinaryExpr:
+		switch x.Op {
+		case token.LAND:
+			at, af := condFacts(x.X, pol)
+			bt, bf := condFacts(x.Y, pol)
+			return at || bt, af && bf
+		case token.LOR:
+			at, af := condFacts(x.X, pol)
+			bt, bf := condFacts(x.Y, pol)
+			return at && bt, af || bf
+		}
+	}
+	switch pol(ast.Unparen(c)) {
+	case +1:
+		return true, false
+	case -1:
+		return false, true
+	}
+	return false, false
 }
 
 // regionFrom returns the live blocks reachable from entry without entering a stop block.
@@ -109,11 +140,12 @@ func guardedBlocks(g *cfg.CFG, entry *cfg.Block, region map[*cfg.Block]bool, pol
 			return true
 		}
 		if c := blockCond(p); c != nil {
-			switch pol(c) {
-			case +1:
-				return p.Succs[0] == b && p.Succs[1] != b
-			case -1:
-				return p.Succs[1] == b && p.Succs[0] != b
+			gT, gF := condFacts(c, pol)
+			if gT && p.Succs[0] == b && p.Succs[1] != b {
+				return true
+			}
+			if gF && p.Succs[1] == b && p.Succs[0] != b {
+				return true
 			}
 		}
 		return false
